@@ -139,6 +139,26 @@ theorem memory_tracks_disk_partial (W : Nat) (hW : 0 < W) (hs : List (Op × Faul
   obtain ⟨c, hg⟩ := crash_consistent_partial W hW hs hv hni
   exact ⟨c, hg.coh, hg.mem⟩
 
+/-- `restart_ok_partial` (/repo at 3c301f0): after any such history a new process initialises its
+running filter successfully and exactly. -/
+theorem restart_ok_partial (W : Nat) (hW : 0 < W) (hs : List (Op × Fault))
+    (hv : ValidHist W Fixes.now Node.init hs) (hni : ∀ x ∈ hs, x.2 ≠ .failInit) :
+    ∃ c f d', Coh c (run W Fixes.now Node.init hs).disk ∧
+      initFilter W (run W Fixes.now Node.init hs).disk = some (f, d') ∧ FiltOK W c f := by
+  obtain ⟨c, hg⟩ := crash_consistent_partial W hW hs hv hni
+  obtain ⟨f, d', h1, h2⟩ := initFilter_good hW hg.wf hg.coh hg.wins hg.snap
+  exact ⟨c, f, d', hg.coh, h1, h2⟩
+
+/-- `next_block_storable_partial` (/repo at 3c301f0): … and the live node (after a failed call as
+well) stores the block the network offers next. -/
+theorem next_block_storable_partial (W : Nat) (hW : 0 < W) (hs : List (Op × Fault))
+    (hv : ValidHist W Fixes.now Node.init hs) (hni : ∀ x ∈ hs, x.2 ≠ .failInit) :
+    ∃ c, Coh c (run W Fixes.now Node.init hs).disk ∧
+      ∀ b, NextBlock c (run W Fixes.now Node.init hs).disk b →
+        (exec W Fixes.now (run W Fixes.now Node.init hs) (.store b) .none).2 = .ok := by
+  obtain ⟨c, hg⟩ := crash_consistent_partial W hW hs hv hni
+  exact ⟨c, hg.coh, fun b hn => store_ok_of_good hW _ hg hn⟩
+
 def b0 : Block := ⟨0, 1, 0, 11, 0, 11, [5], [100]⟩
 def b1 : Block := ⟨1, 2, 1, 12, 11, 12, [6], [101]⟩
 def b1' : Block := ⟨1, 7, 1, 17, 11, 17, [9], [107]⟩
